@@ -3,11 +3,12 @@
 """
 
 from copy import deepcopy
-from typing import Tuple, Union
+from typing import Dict, Tuple, Union
 
 # This is about the one place within the library that we use the global, named import `hdl21 as h`,
 # largely so that this module is a bit more copy-paste-edit-able.
 import hdl21 as h
+from .instantiable import io
 
 
 SeriesConn = Union[h.Signal, str]
@@ -45,12 +46,12 @@ def Series(params: SeriesParams) -> h.Module:
     m = h.Module()
 
     # Copy the unit-cell ports
-    for p in params.unit.ports.values():
-        m.add(deepcopy(p))
+    for p in _io(params.unit).values():
+        m.add(_copy_port(p))
 
     # Divy up the ports by series vs parallel connections
     series_conns = _seriesconns(m, params.conns)
-    par_ports = [port for port in m.ports.values() if port not in series_conns]
+    par_ports = [port for port in io(m).values() if port not in series_conns]
     unit_conns = {port.name: port for port in par_ports}
 
     # Create the internal series-connected signals, and concatenate them with the series ports
@@ -63,6 +64,31 @@ def Series(params: SeriesParams) -> h.Module:
 
     # And return the module
     return m
+
+
+def _io(i: h.Instantiable) -> Dict[str, Union[h.Signal, h.BundleInstance]]:
+    """The IO of `i` as its instantiators connect to it, signal and bundle valued.
+    For a `Module` which has been elaborated, that is its IO from before its bundles were flattened."""
+    pre = getattr(i, "_pre_flattening_io", None)
+    if pre is not None:
+        return dict(pre)
+    return io(i)
+
+
+def _copy_port(p: Union[h.Signal, h.BundleInstance]) -> Union[h.Signal, h.BundleInstance]:
+    """Copy port `p`, for addition to another `Module`."""
+    if isinstance(p, h.BundleInstance):
+        return h.BundleInstance(
+            name=p.name,
+            of=p.of,
+            port=True,
+            flipped=p.flipped,
+            role=p.role,
+            src=p.src,
+            dest=p.dest,
+            desc=p.desc,
+        )
+    return deepcopy(p)
 
 
 def _seriesconns(m: h.Module, conns: SeriesConns) -> Tuple[h.Signal, h.Signal]:
@@ -118,14 +144,12 @@ def Wrapper(m: h.Instantiable) -> h.Module:
     Callers of `Wrapper` are therefore responsible for considerations such as unique naming.
     """
 
-    from .instantiable import io
-
     # Initialize our wrapper-module
     wrapper = h.Module(name=f"{m.name}Wrapper")
 
     # Copy the inner-cell ports
     # Note this also serves as the connections-dict to the inner instance
-    wrapper_io = {p.name: wrapper.add(deepcopy(p)) for p in io(m).values()}
+    wrapper_io = {p.name: wrapper.add(_copy_port(p)) for p in _io(m).values()}
 
     # Create the inner instance
     wrapper.add(h.Instance(name="inner", of=m)(**wrapper_io))
